@@ -106,6 +106,56 @@ let run_set_links () =
     v ^ " " ^ dump u s1
   end
 
+(* ---- T cases: histories over a parent / child store hierarchy (Links/HierMachine.v) --------------
+     T <nkA> <ext>.. <nkB> <ext>.. <np> { <lvA> <lvB> }.. <nA> <idA>.. <nB> <idB>.. <ntx> { <nops> <op>.. }..
+   op := C <lv> sd x | D <lv> sd x | <link op kind> <pair> sd a ...   (one number after the kind)
+   Output per transaction: <verdict> <presence> | <dump of pair 0> | <dump of pair 1> ..
+   presence: side A then B (separated by "/"), per universe id one digit per store level (root first);
+   the dump of a pair is the flat dump of the view of that pair. *)
+let next_hop () =
+  let kind = next () in
+  let w = next_int () in
+  match kind with
+  | "C" -> let sd = next_side () in HCreate (sd, nat_of_int w, next_id ())
+  | "D" -> let sd = next_side () in HDelete (sd, nat_of_int w, next_id ())
+  | _ -> toks := kind :: !toks; HLink (nat_of_int w, next_op ())
+
+let hdump t u (h : hstate) : string =
+  let buf = Buffer.create 512 in
+  List.iter (fun sd ->
+    if not sd then Buffer.add_string buf " /";
+    let nk = int_of_nat (nkids t sd) in
+    List.iter (fun x ->
+      Buffer.add_char buf ' ';
+      for k = 0 to nk do Buffer.add_string buf (if h.hp sd (nat_of_int k) x then "1" else "0") done) (uni u sd))
+    [true; false];
+  let np = int_of_nat (npairs t) in
+  let cells = List.init np (fun p -> dump u (view t (nat_of_int p) h)) in
+  String.concat " | " (String.trim (Buffer.contents buf) :: cells)
+
+let run_hier () =
+  let flags () = let n = next_int () in List.init n (fun _ -> next () = "1") in
+  let ka = flags () in
+  let kb = flags () in
+  let np = next_int () in
+  let prs = List.init np (fun _ -> let a = next_int () in let b = next_int () in (nat_of_int a, nat_of_int b)) in
+  let t = { kids = (fun sd -> if sd then ka else kb); pairs = prs } in
+  let ua = next_ids () in
+  let ub = next_ids () in
+  let u = (ua, ub) in
+  let ntx = next_int () in
+  let h = ref hinit in
+  let blocks = ref [] in
+  for _ = 1 to ntx do
+    let nops = next_int () in
+    let ops = List.init nops (fun _ -> next_hop ()) in
+    let v = match hfirst_failure t u ops !h O with None -> "ok" | Some i -> "f" ^ string_of_int (int_of_nat i) in
+    let (_, h') = run_htx t u ops !h in
+    h := h';
+    blocks := (v ^ " " ^ hdump t u !h) :: !blocks
+  done;
+  String.concat " ; " (List.rev !blocks)
+
 let () =
   iter_lines (fun line ->
     toks := split_ws line;
@@ -116,5 +166,6 @@ let () =
         match next () with
         | "H" -> print_endline (run_history ())
         | "S" -> print_endline (run_set_links ())
+        | "T" -> print_endline (run_hier ())
         | _ -> print_endline "?"
       with Failure m -> print_endline ("driver-error:" ^ m)))
